@@ -51,8 +51,12 @@ for f in sorted(os.listdir(out)):
         caught = h.get("caught_by")
         if caught is None:
             caught = sorted({r["property"] for r in results if r["quick_exit"] == 1})
+        breaks = prop
+        if prop == "auto" and os.path.exists(md):
+            first = open(md).readline()
+            breaks = " ".join(re.findall(r"C\d+", first)) if first.startswith("BREAKS") else prop
         meta = {
-            "id": f"{prefix}-{tag}", "breaks": prop, "source": source,
+            "id": f"{prefix}-{tag}", "breaks": breaks, "source": source,
             "needs_to_manifest": first_para(md) if os.path.exists(md) else "",
             "confirmed": {"suite_with_change": suite, "demo_with_change_exit": ex(dw), "demo_on_clean_tree_exit": ex(dc),
                           "demo_flags": flags, "how": "tools/evalmut.sh"},
